@@ -162,6 +162,13 @@ def main(tier: str, seed: int) -> int:
             dict(cap=2500, types=small_types, roles=['row', 'col'],
                  max_calls=4, simulate=60,
                  insts=('both', 'first', 'second')),
+            # boundary-value capacities: one byte below / exactly the sum of
+            # two packed (symmetric) tensors, so that fusing them is just
+            # forbidden / just allowed
+            dict(cap=439, types=[T[2], T[4]], roles=['world', 'row'],
+                 max_calls=3),
+            dict(cap=440, types=[T[2], T[4]], roles=['world', 'row'],
+                 max_calls=3),
         ]
     else:
         scopes = [
@@ -180,6 +187,11 @@ def main(tier: str, seed: int) -> int:
             dict(cap=1000, types=T, roles=['world', 'row', 'col'],
                  max_calls=6, simulate=800,
                  insts=('both', 'first', 'second')),
+        ] + [
+            # boundary-value capacities (sums of plain / packed sizes -1, +0)
+            dict(cap=c, types=[T[2], T[3], T[4]], roles=['world', 'row'],
+                 max_calls=3)
+            for c in (439, 440, 619, 620, 2175, 2176, 1307, 1308)
         ]
     with ThreadPoolExecutor(max_workers=3) as ex:
         runs = list(ex.map(
